@@ -169,6 +169,11 @@ def mixtures(tier):
     if tier == "quick":
         lat = lat[::11]
     out += [("nrtl", p) for p in lat]
+    # strongly non-ideal but valid parameter sets (gamma at infinite dilution of 1e4..1e9, and strong negative deviations):
+    # an overflow guard or cap on ln(gamma) is active only here
+    out += [("nrtl", dict(g12=9000.0, g21=24000.0, alpha12=0.3, alpha21=None, a12=0.0, a21=0.0)),
+            ("nrtl", dict(g12=17000.0, g21=6500.0, alpha12=0.25, alpha21=0.4, a12=0.3, a21=-0.2)),
+            ("nrtl", dict(g12=-16000.0, g21=-11000.0, alpha12=0.2, alpha21=None, a12=0.0, a21=0.0))]
     uv = {"alpha_12": (-80.0, 0.0, 150.0), "alpha_21": (-60.0, 120.0), "beta_12": (-1200.0, 0.0, 1500.0), "beta_21": (-700.0, 2400.0)}
     ukeys = list(uv)
     ulat = [dict(zip(ukeys, c), z=10) for c in itertools.product(*(uv[k] for k in ukeys))]
